@@ -122,8 +122,8 @@ def sample(c, o):
     return {'prog': c['prog'], 'flat_len': len((o.get('flat_unrolled') or {}).get('ops', []))}
 
 
-LEVEL_TEXT = 'see DESIGN.md C11'
-LEVEL_NOTE = 'see DESIGN.md section 9'
+LEVEL_TEXT = 'Coq theorems over the model of apply_flatten_to_self (re-insertion of the decomposed listing, fallback branch included): when the model is defined the flat graph has one leaf node per listed leaf, in listing order, unchanged; no sub-circuit remains; it is well-formed; the listed multiset is unchanged; flattening a flat result again reproduces the same listing and times; the model is undefined exactly when a multi-link keeps a vanished sub-circuit among its members (finding F10, witness proved). Library circuits: order, schedule, indices and Stim normal form are compared before/after flatten on the implementation.'
+LEVEL_NOTE = 'Trusted: Coq kernel, Core model tied by correspondence on implicitly sequenced nested programs and library circuits. F10 is a recorded known finding (class: flatten after unrolling a repeated block that contains a sub-circuit). No axioms.'
 TECHNIQUE = 'Coq proof over an executable model + correspondence evaluated by vm_compute'
 
 
